@@ -110,6 +110,17 @@ CLAIMED.update({
         ref="DESIGN.md 3/C14"),
 })
 
+CLAIMED.update({
+    "C11": dict(
+        text="Proof on the real diff.py frontier functions: for an arbitrary old member, non-public => never reported, public and missing => exactly one "
+             "ObjectRemovedBreakage against it, public and present => compared with the same-named new member; _type_based_yield dispatch (seen paths prevent "
+             "re-entry, alias on either side => through targets, kinds differ => ObjectChangedKindBreakage, else the kind-specific comparison of exactly that pair); "
+             "_alias_incompatibilities never aborts on unresolvable or cyclic re-exports; removed base class and changed attribute value always reported; no iteration raises. "
+             "Silence on compatible edits and reporting against a public path are a bounded native tier (edit catalogue).",
+        note="is_public abstracted here (its table is proved in C01); additions are silent by construction (only old members are iterated). Fixed: D9 cyclic re-export abort (219114d).",
+        ref="DESIGN.md 3/C11"),
+})
+
 NA_REASON = {
     "C17": "relates two whole-program analyses through CPython's run-time object model; a contract for the inspector would have to assume the very "
            "object model the property compares against, so no obligation over /repo code alone implies agreement (DESIGN.md section 4)",
